@@ -212,7 +212,7 @@ class OffsetRequest_v4(RequestStruct):
                     "partitions",
                     Array(
                         ("partition", Int32),
-                        ("current_leader_epoch", Int64),
+                        ("current_leader_epoch", Int32),
                         ("timestamp", Int64),
                     ),
                 ),
